@@ -11,7 +11,7 @@ Local Open Scope R_scope.
 (* well-formed configuration: positive sigmas and widths; sigma = width*hillWidth/2 when hillWidth is given;
    with grids: upper = lower + nx*width, nx > 0, scalar variables, no expansion of a grid on a periodic variable *)
 Definition cfg_ok (c : cfgR) : Prop :=
-  Forall var_ok (c_vars c) /\ sigmas_ok c /\
+  Forall var_ok (c_vars c) /\ sig_ok (c_vars c) (c_sigmas c) /\ sigmas_ok c /\
   (c_use_grids c = true -> All2 bound_ok (c_vars c) (c_geom0 c) /\ Forall gvar_ok (c_vars c)).
 
 (* admissible values (only with grids): one value per variable, not beyond a boundary declared hard, and within
@@ -31,7 +31,7 @@ Definition adm (c : cfgR) (g0 : list boundR) (x : list valueR) : Prop :=
 Definition rebin_ok (c : cfgR) (g' : list boundR) (s : sstate) : Prop :=
   c_use_grids c = true ->
   All2 bound_ok (c_vars c) g' /\
-  ((c_keep c = true /\ forall h, In h (s_all s) -> All3 (clear_var c) (c_vars c) g' (h_c h)) \/
+  ((c_keep c = true /\ forall h, In h (s_all s) -> All4 clear_var (c_vars c) g' (h_c h) (h_s h)) \/
    (c_keep c = false /\ All3 (fun v b b' => gstep v b b') (c_vars c) (s_geom s) g')).
 
 (* the base geometry (boundaries of the configuration) after an event *)
@@ -49,11 +49,14 @@ Fixpoint hist_ok (c : cfgR) (g0 : list boundR) (s : sstate) (hist : list eventR)
       | ERestart None => True
       | ERestart (Some g') => rebin_ok c g' s
       | EReload => True
-      end /\ hist_ok c (next_base c g0 e) (spec_event c s e) r
+      | EReconf p => cfg_ok (with_par c p)     (* the new widths are positive, consistent with the new hillWidth *)
+      end /\ hist_ok (next_cfg c e) (next_base c g0 e) (spec_event c s e) r
   end.
 
 (* the base geometry at the end of a history *)
-Definition final_base (c : cfgR) (hist : list eventR) : list boundR := fold_left (next_base c) hist (c_geom0 c).
+Fixpoint fbase (c : cfgR) (hist : list eventR) (g0 : list boundR) : list boundR :=
+  match hist with [] => g0 | e :: r => fbase (next_cfg c e) r (next_base c g0 e) end.
+Definition final_base (c : cfgR) (hist : list eventR) : list boundR := fbase c hist (c_geom0 c).
 Definition history_ok (c : cfgR) (hist : list eventR) : Prop := hist_ok c (c_geom0 c) (mkS [] [] (c_geom0 c)) hist.
 
 Lemma scR_nth (l : valueR) : scR l = nth 0 l 0.
@@ -76,6 +79,7 @@ Qed.
 Lemma Fk_scalar_high (vs : list varR) h x k j : Forall gvar_ok vs -> (0 < j)%nat -> Fk vs h x k j = 0.
 Proof.
   intros Hg Hj. unfold Fk. destruct (nth_error vs k) as [v|] eqn:E; [|reflexivity].
+  destruct (nth_error (h_s h) k); [|reflexivity].
   destruct (nth_error x k); [|reflexivity]. destruct (nth_error (h_c h) k); [|reflexivity].
   apply nth_error_In in E. rewrite Forall_forall in Hg. destruct (Hg v E) as [Hkind _].
   unfold Dgrad. rewrite Hkind. destruct j as [|j]; [lia|]. cbn [nth]. destruct j; unfold Rdiv; ring.
@@ -97,14 +101,17 @@ Section Refine.
 
   Lemma Hvars : Forall var_ok vs.
   Proof. exact (proj1 Hok). Qed.
-  Lemma Hsig : sigmas_ok c.
+  Lemma Hsg : sig_ok vs (c_sigmas c).
   Proof. exact (proj1 (proj2 Hok)). Qed.
+  Lemma Hsig : sigmas_ok c.
+  Proof. exact (proj1 (proj2 (proj2 Hok))). Qed.
 
   (* a hill that is zero everywhere off the grid g *)
   Definition Far (g : list boundR) (h : hillR) : Prop :=
-    forall x, ADM g x -> index_ok (gsizes g) (gbins Rops vs g x) = false -> 23 < Qexp vs x (h_c h).
-  (* a hill at least min_buffer bins inside the expandable edges of g *)
-  Definition Clear (g : list boundR) (h : hillR) : Prop := All3 (clear_var c) vs g (h_c h).
+    forall x, ADM g x -> index_ok (gsizes g) (gbins Rops vs g x) = false -> 23 < Qexp vs (h_s h) x (h_c h).
+  (* a hill (with positive widths) at least six of its sigmas inside the expandable edges of g *)
+  Definition Clear (g : list boundR) (h : hillR) : Prop :=
+    All4 clear_var vs g (h_c h) (h_s h) /\ Forall (Rlt 0) (h_s h).
 
   Record Inv (m : stateR) (s : sstate) : Prop := mkInv {
     inv_new : st_new m = s_pend s;
@@ -144,7 +151,7 @@ Section Refine.
   Lemma geom_facts s : c_use_grids c = true -> GS g0 (s_geom s) ->
     All2 bound_ok vs (s_geom s) /\ Forall gvar_ok vs /\ length (s_geom s) = length vs.
   Proof.
-    intros G Hg. pose proof Hok as (_ & _ & H). destruct (H G) as [_ Hgv].
+    intros G Hg. pose proof Hok as (_ & _ & _ & H). destruct (H G) as [_ Hgv].
     split; [apply (All2_bound_gstep vs _ _ (Hg0 G) Hg)|]. split; [exact Hgv|].
     destruct (All3_length _ _ _ _ Hg) as [_ Hl]. symmetry. exact Hl.
   Qed.
@@ -215,22 +222,32 @@ Section Refine.
   Lemma same_sstate s : mkS (s_tab s) (s_pend s) (s_geom s) = s.
   Proof. destruct s; reflexivity. Qed.
 
-  Lemma mb_covers : forall v, In v vs -> 6 * v_sigma v < IZR (min_buffer Rops c) * v_width v.
-  Proof. intros v Hin. apply min_buffer_covers; [exact Hsig|exact Hvars|exact Hin]. Qed.
+  Lemma mb_covers : All2 (fun v si => 6 * si < IZR (min_buffer Rops c) * v_width v) vs (c_sigmas c).
+  Proof. apply min_buffer_covers; [exact Hsig|exact Hvars|exact Hsg]. Qed.
 
-  Lemma not_near_far g x : c_use_grids c = true -> All2 bound_ok vs g -> Forall gvar_ok vs ->
-    length g = length vs -> length x = length vs ->
-    near_edge Rops c g x = false -> forall w it, Far g (mkHill it w x).
+  Lemma All2_and_pos (P : varR -> R -> Prop) us : forall sg, All2 P us sg -> Forall (Rlt 0) sg ->
+    All2 (fun v si => 0 < si /\ P v si) us sg.
   Proof.
-    intros G Hb Hgv Hlg Hlx Hn w it y Hay Hout. cbn [h_c].
+    induction us as [|v us IH]; intros [|si sg] H Hp; cbn [All2] in *; try tauto.
+    inversion Hp as [|s0 l0 Hp1 Hp2]; subst. destruct H as [Ha Hb]. split; [split; assumption|apply IH; assumption].
+  Qed.
+
+  Lemma not_near_far g x sg : c_use_grids c = true -> All2 bound_ok vs g -> Forall gvar_ok vs ->
+    length g = length vs -> length x = length vs -> length sg = length vs -> Forall (Rlt 0) sg ->
+    near_edge Rops c g sg x = false -> forall w it, Far g (mkHill it w x sg).
+  Proof.
+    intros G Hb Hgv Hlg Hlx Hls Hp Hn w it y Hay Hout. cbn [h_c h_s].
     unfold near_edge in Hn. cbn [nltb nofZ Rops] in Hn. apply Rltb_false in Hn.
-    pose proof (bin_dist_far (off_margin Rops c) vs g x _ Hlg Hlx Hn) as Hf.
-    destruct vs as [|v0 l0] eqn:Evs.
-    - destruct g; [|discriminate]. destruct y; [|contradiction]. cbn in Hout. discriminate.
-    - rewrite <- Evs in *.
-      apply (far_outside_gen (off_margin Rops c) vs g y x Hvars Hgv Hb Hay Hf); [| |exact Hout].
-      + apply (margin_pos c v0 Hsig Hvars). rewrite Evs. left. reflexivity.
-      + intros v Hin. apply margin_covers; [exact Hsig|exact Hvars|exact Hin].
+    pose proof (bin_dist_far (off_margin Rops c sg) vs g x _ Hlg Hlx Hn) as Hf.
+    destruct (margin_covers c sg Hvars Hls) as [H1 Hc].
+    apply (far_outside_gen (off_margin Rops c sg) vs g sg y x Hvars Hgv Hb Hay Hf); [lra| |exact Hout].
+    apply All2_and_pos; assumption.
+  Qed.
+
+  Lemma clear_facts g h : Clear g h ->
+    length (h_c h) = length vs /\ length (h_s h) = length vs /\ Forall (Rlt 0) (h_s h).
+  Proof.
+    intros [H4 Hp]. destruct (All4_length _ _ _ _ _ H4) as (_ & H2 & H3). repeat split; [symmetry; exact H2|symmetry; exact H3|exact Hp].
   Qed.
 
   Lemma expand_inv m s x : Inv m s -> adm c g0 x -> Inv (update_grid_params Rops c m x) (spec_expand c s x).
@@ -251,34 +268,33 @@ Section Refine.
     - exact Hsub.
     - reflexivity.
     - intros _. apply (All3_gstep_trans vs _ _ _ (Hgrel G) Hs).
-    - intros ix Hix. destruct (remap_lemma c vs (s_geom s) g' ix Hvars Hgv Hb Hs mb_covers Hix) as [R1 R2].
+    - intros ix Hix. destruct (remap_lemma vs (s_geom s) g' ix Hvars Hgv Hb Hs Hix) as [R1 R2].
       destruct (index_ok (gsizes (s_geom s)) (remap_ix Rops vs g' (s_geom s) ix)) eqn:Eo.
       + rewrite (He _ Eo), (R1 eq_refl). reflexivity.
-      + symmetry. apply Esum_zero. intros h Hin. apply K_far. apply (R2 eq_refl).
-        apply (Hcl G). unfold s_all. apply in_or_app. left. exact Hin.
-    - intros ix k Hix Hk. destruct (remap_lemma c vs (s_geom s) g' ix Hvars Hgv Hb Hs mb_covers Hix) as [R1 R2].
+      + symmetry. apply Esum_zero. intros h Hin. apply K_far.
+        destruct (Hcl G h ltac:(unfold s_all; apply in_or_app; left; exact Hin)) as [H4 Hp]. apply (R2 eq_refl _ _ H4 Hp).
+    - intros ix k Hix Hk. destruct (remap_lemma vs (s_geom s) g' ix Hvars Hgv Hb Hs Hix) as [R1 R2].
       destruct (index_ok (gsizes (s_geom s)) (remap_ix Rops vs g' (s_geom s) ix)) eqn:Eo.
       + rewrite (Hg _ _ Eo Hk), (R1 eq_refl). reflexivity.
-      + rewrite Fsum_zero; [cbn; lra|]. intros h Hin. apply Fk_far. apply (R2 eq_refl).
-        apply (Hcl G). unfold s_all. apply in_or_app. left. exact Hin.
+      + rewrite Fsum_zero; [cbn; lra|]. intros h Hin. apply Fk_far.
+        destruct (Hcl G h ltac:(unfold s_all; apply in_or_app; left; exact Hin)) as [H4 Hp]. apply (R2 eq_refl _ _ H4 Hp).
     - intros _. apply (Dropped_trans _ _ (st_off_old m)).
       + apply (Dropped_mono (Far (s_geom s))); [|apply Hoo; exact G]. intros h. apply (Far_step _ _ h Hgv Hb Hs).
-      + apply Dropped_filter. intros h Hin Hn. destruct h as [it w cx]. unfold near_hill in Hn. cbn [h_c] in Hn.
+      + apply Dropped_filter. intros h Hin Hn. destruct h as [it w cx sg]. unfold near_hill in Hn. cbn [h_c h_s] in Hn.
         assert (Hb' : All2 bound_ok vs g') by (apply (All2_bound_gstep vs _ _ Hb Hs)).
         assert (Hl' : length g' = length vs) by (symmetry; apply (All2_length _ _ _ Hb')).
-        apply (not_near_far g' cx G Hb' Hgv Hl'); [|exact Hn].
-        destruct (All3_length _ _ _ _ (Hcl G (mkHill it w cx) ltac:(unfold s_all; apply in_or_app; left; apply (Dropped_In _ _ _ (Hoo G)); exact Hin))) as [_ Hlc].
-        symmetry. exact Hlc.
+        destruct (clear_facts _ _ (Hcl G (mkHill it w cx sg) ltac:(unfold s_all; apply in_or_app; left; apply (Dropped_In _ _ _ (Hoo G)); exact Hin))) as (Hlc & Hls & Hp).
+        cbn [h_c h_s] in Hlc, Hls, Hp. apply (not_near_far g' cx sg G Hb' Hgv Hl' Hlc Hls Hp Hn).
     - intros _. apply (Dropped_trans _ _ (st_off_new m)).
       + apply (Dropped_mono (Far (s_geom s))); [|apply Hon; exact G]. intros h. apply (Far_step _ _ h Hgv Hb Hs).
-      + apply Dropped_filter. intros h Hin Hn. destruct h as [it w cx]. unfold near_hill in Hn. cbn [h_c] in Hn.
+      + apply Dropped_filter. intros h Hin Hn. destruct h as [it w cx sg]. unfold near_hill in Hn. cbn [h_c h_s] in Hn.
         assert (Hb' : All2 bound_ok vs g') by (apply (All2_bound_gstep vs _ _ Hb Hs)).
         assert (Hl' : length g' = length vs) by (symmetry; apply (All2_length _ _ _ Hb')).
-        apply (not_near_far g' cx G Hb' Hgv Hl'); [|exact Hn].
-        destruct (All3_length _ _ _ _ (Hcl G (mkHill it w cx) ltac:(unfold s_all; apply in_or_app; right; apply (Dropped_In _ _ _ (Hon G)); exact Hin))) as [_ Hlc].
-        symmetry. exact Hlc.
+        destruct (clear_facts _ _ (Hcl G (mkHill it w cx sg) ltac:(unfold s_all; apply in_or_app; right; apply (Dropped_In _ _ _ (Hon G)); exact Hin))) as (Hlc & Hls & Hp).
+        cbn [h_c h_s] in Hlc, Hls, Hp. apply (not_near_far g' cx sg G Hb' Hgv Hl' Hlc Hls Hp Hn).
     - intros G'. rewrite G in G'. discriminate G'.
-    - intros _ h Hin. apply (All3_clear_gstep c vs (s_geom s) g' (h_c h) Hvars Hs). apply (Hcl G h Hin).
+    - intros _ h Hin. destruct (Hcl G h Hin) as [H4 Hp]. split; [|exact Hp].
+      apply (All4_clear_gstep vs (s_geom s) g' (h_c h) (h_s h) Hvars Hs H4).
   Qed.
 
   (* ---- update_bias ---- *)
@@ -315,7 +331,8 @@ Section Refine.
     intros HI Ha Hbuf. pose proof HI as HI0. destruct HI as [Hnew Hold Hsub Hgeom Hgrel He Hg Hoo Hon Hng Hcl].
     unfold update_bias, spec_dep. rewrite eligible_deposit.
     destruct (eligible c i) eqn:El; [|exact HI0].
-    rewrite (deposit_weight m s i HI0 Ha). set (h := mkHill (i_it i) (spec_height c s i) (i_x i)).
+    rewrite (deposit_weight m s i HI0 Ha). set (h := mkHill (i_it i) (spec_height c s i) (i_x i) (c_sigmas c)).
+    destruct Hsg as [Hsl Hsp].
     constructor; cbn [st_new st_old st_e st_g st_geom st_off_old st_off_new s_tab s_pend s_geom s_all].
     - rewrite Hnew. reflexivity.
     - exact Hold.
@@ -329,17 +346,19 @@ Section Refine.
       destruct (geom_facts s G (Hgrel G)) as (Hb & Hgv & Hlen).
       assert (Hlx : length (i_x i) = length vs).
       { specialize (Ha G). destruct (All3_length _ _ _ _ Ha) as [_ Hl]. symmetry. exact Hl. }
-      destruct (near_edge Rops c (s_geom s) (i_x i)) eqn:En.
+      unfold near_hill. cbn [h_c h_s h].
+      destruct (near_edge Rops c (s_geom s) (c_sigmas c) (i_x i)) eqn:En.
       + apply Dropped_app; [apply Hon; exact G|]. apply D_keep. apply D_nil.
       + rewrite <- (app_nil_r (st_off_new m)). apply Dropped_app; [apply Hon; exact G|].
-        apply D_drop; [|apply D_nil]. apply (not_near_far _ _ G Hb Hgv Hlen Hlx En).
+        apply D_drop; [|apply D_nil]. apply (not_near_far _ _ _ G Hb Hgv Hlen Hlx Hsl Hsp En).
     - intros G. rewrite G. cbn [andb]. apply (Hng G).
     - intros G h' Hin. apply in_app_or in Hin. destruct Hin as [Hin|Hin].
       + apply (Hcl G). unfold s_all. apply in_or_app. left. exact Hin.
       + apply in_app_or in Hin. destruct Hin as [Hin|[<-|[]]].
         * apply (Hcl G). unfold s_all. apply in_or_app. right. exact Hin.
         * destruct (geom_facts s G (Hgrel G)) as (Hb & _ & _).
-          unfold Clear, h. cbn [h_c]. apply (All3_buffer_clear c vs _ _ Hvars Hb (Hbuf G)).
+          unfold Clear, h. cbn [h_c h_s]. split; [|exact Hsp].
+          apply (All4_buffer_clear c vs _ _ _ Hvars Hb mb_covers (Hbuf G)).
   Qed.
 
   (* ---- project_hills ---- *)
@@ -393,17 +412,14 @@ Section Refine.
   Qed.
 
   (* ---- read_state_data in a fresh instance (same geometry) ---- *)
-  Lemma clear_length g h : Clear g h -> length (h_c h) = length vs.
-  Proof. intros H. destruct (All3_length _ _ _ _ H) as [_ Hl]. symmetry. exact Hl. Qed.
-
   Lemma near_filter_dropped s hs : c_use_grids c = true -> GS g0 (s_geom s) ->
     (forall h, In h hs -> Clear (s_geom s) h) ->
     Dropped (Far (s_geom s)) hs (filter (near_hill Rops c (s_geom s)) hs).
   Proof.
     intros G Hgr Hcl. destruct (geom_facts s G Hgr) as (Hb & Hgv & Hlen).
-    apply Dropped_filter. intros h Hin Hn. destruct h as [it w x]. unfold near_hill in Hn. cbn [h_c] in Hn.
-    apply (not_near_far _ _ G Hb Hgv Hlen); [|exact Hn].
-    apply (clear_length (s_geom s) (mkHill it w x)). apply Hcl. exact Hin.
+    apply Dropped_filter. intros h Hin Hn. destruct h as [it w x sg]. unfold near_hill in Hn. cbn [h_c h_s] in Hn.
+    destruct (clear_facts _ _ (Hcl _ Hin)) as (Hlc & Hls & Hp). cbn [h_c h_s] in Hlc, Hls, Hp.
+    apply (not_near_far _ _ _ G Hb Hgv Hlen Hlc Hls Hp Hn).
   Qed.
 
   Lemma read_inv m s : Inv m s -> (c_use_grids c = true -> s_pend s = []) -> Inv (read_state Rops c m) s.
@@ -479,12 +495,13 @@ Section Refine.
     match e with EStep i => adm c g0 (i_x i) | ERestart (Some _) => False | _ => True end ->
     Inv (apply_event Rops c m e) (spec_event c s e).
   Proof.
-    intros HI Ha. destruct e as [i| |[g'|]|]; cbn [apply_event spec_event].
+    intros HI Ha. destruct e as [i| |[g'|]| |p]; cbn [apply_event spec_event].
     - apply step_inv; assumption.
     - apply tabulate_inv; assumption.
     - contradiction.
     - apply restart_inv; assumption.
     - apply reload_inv; assumption.
+    - apply restart_inv; assumption.
   Qed.
 End Refine.
 
@@ -507,13 +524,15 @@ Proof.
   assert (Hg1 : s_geom s1 = s_geom s) by (unfold s1, spec_tabulate; rewrite G; reflexivity).
   pose proof (read_old_far c g0 (save_state Rops c m) s1 Hsave G) as Hfar1. fold m1 in Hfar1.
   destruct H1 as [Hnew Hold Hsub Hgeom Hgrel He Hg Hoo Hon Hng Hcl].
-  pose proof Hok as (Hvars & Hsig & Hgv0). destruct (Hgv0 G) as [_ Hgv].
+  pose proof Hok as (Hvars & Hsgok & Hsig & Hgv0). destruct (Hgv0 G) as [_ Hgv].
   assert (Hlen' : length g' = length (c_vars c)) by (symmetry; apply (All2_length _ _ _ Hb')).
   destruct Hcase as [(Ek & Hcl')|(Ek & Hs)].
   - (* from the kept hills *)
     rewrite Ek. cbn [andb].
-    assert (Hclear1 : forall h, In h (s_tab s1) -> All3 (clear_var c) (c_vars c) g' (h_c h)).
-    { intros h Hin. apply Hcl'. rewrite <- (s_all_save c s). fold s1. unfold s_all. apply in_or_app. left. exact Hin. }
+    assert (Hclear1 : forall h, In h (s_tab s1) -> Clear c g' h).
+    { intros h Hin. split.
+      - apply Hcl'. rewrite <- (s_all_save c s). fold s1. unfold s_all. apply in_or_app. left. exact Hin.
+      - apply (Hcl G h). unfold s_all. apply in_or_app. left. exact Hin. }
     constructor; cbn [st_new st_old st_e st_g st_geom st_off_old st_off_new s_tab s_pend s_geom].
     + symmetry. exact Hp1.
     + intros _. apply (Hold Ek).
@@ -533,10 +552,10 @@ Proof.
         cbn [nsub n0 nth Rops]. lra.
     + intros _. rewrite (Hold Ek). destruct (s_tab s1) as [|h0 t0] eqn:Et.
       * rewrite (Dropped_nil _ _ (Hoo G)). apply D_nil.
-      * apply Dropped_filter. intros h Hin Hn. destruct h as [it w x].
-        unfold near_hill in Hn. cbn [h_c] in Hn.
-        apply (not_near_far c Hok g' x G Hb' Hgv Hlen'); [|exact Hn].
-        destruct (All3_length _ _ _ _ (Hclear1 _ Hin)) as [_ Hl]. symmetry. exact Hl.
+      * apply Dropped_filter. intros h Hin Hn. destruct h as [it w x sg].
+        unfold near_hill in Hn. cbn [h_c h_s] in Hn.
+        destruct (clear_facts c _ _ (Hclear1 _ Hin)) as (Hlc & Hls & Hp). cbn [h_c h_s] in Hlc, Hls, Hp.
+        apply (not_near_far c Hok g' x sg G Hb' Hgv Hlen' Hlc Hls Hp Hn).
     + intros _. rewrite Hp1. apply D_nil.
     + intros G'. rewrite G in G'. discriminate G'.
     + intros _ h Hin. unfold s_all in Hin. cbn [s_tab s_pend] in Hin. rewrite Hp1, app_nil_r in Hin. apply Hclear1. exact Hin.
@@ -554,95 +573,135 @@ Proof.
     + reflexivity.
     + intros _. apply All3_refl_gstep. exact Hlen'.
     + intros ix Hix. rewrite Hgeom.
-      destruct (remap_lemma c (c_vars c) (s_geom s1) g' ix Hvars Hgv Hb Hs (mb_covers c Hok) Hix) as [R1 R2].
+      destruct (remap_lemma (c_vars c) (s_geom s1) g' ix Hvars Hgv Hb Hs Hix) as [R1 R2].
       destruct (index_ok (gsizes (s_geom s1)) (remap_ix Rops (c_vars c) g' (s_geom s1) ix)) eqn:Eo.
       * rewrite (He _ Eo), (R1 eq_refl). reflexivity.
-      * symmetry. apply Esum_zero. intros h Hin. apply K_far. apply (R2 eq_refl). apply Hcl1. exact Hin.
+      * symmetry. apply Esum_zero. intros h Hin. apply K_far. destruct (Hcl1 h Hin) as [H4 Hp]. apply (R2 eq_refl _ _ H4 Hp).
     + intros ix k Hix Hk. rewrite Hgeom.
-      destruct (remap_lemma c (c_vars c) (s_geom s1) g' ix Hvars Hgv Hb Hs (mb_covers c Hok) Hix) as [R1 R2].
+      destruct (remap_lemma (c_vars c) (s_geom s1) g' ix Hvars Hgv Hb Hs Hix) as [R1 R2].
       destruct (index_ok (gsizes (s_geom s1)) (remap_ix Rops (c_vars c) g' (s_geom s1) ix)) eqn:Eo.
       * rewrite (Hg _ _ Eo Hk), (R1 eq_refl). reflexivity.
-      * rewrite Fsum_zero; [cbn; lra|]. intros h Hin. apply Fk_far. apply (R2 eq_refl). apply Hcl1. exact Hin.
+      * rewrite Fsum_zero; [cbn; lra|]. intros h Hin. apply Fk_far. destruct (Hcl1 h Hin) as [H4 Hp]. apply (R2 eq_refl _ _ H4 Hp).
     + intros _. destruct (st_old m1) as [|h0 t0] eqn:Eh.
       * apply (Dropped_mono (Far c (s_geom s1))); [exact Hfar'|apply Hoo; exact G].
       * apply (Dropped_trans _ _ _ (Dropped_mono _ _ _ _ Hfar' Hfar1)).
-        apply Dropped_filter. intros h Hin Hn. destruct h as [it w x].
-        unfold near_hill in Hn. cbn [h_c] in Hn.
-        apply (not_near_far c Hok g' x G Hb' Hgv Hlen'); [|exact Hn].
-        apply (clear_length c (s_geom s1) (mkHill it w x)). apply Hcl1.
-        apply (Dropped_In _ _ _ Hfar1). exact Hin.
+        apply Dropped_filter. intros h Hin Hn. destruct h as [it w x sg].
+        unfold near_hill in Hn. cbn [h_c h_s] in Hn.
+        destruct (clear_facts c _ _ (Hcl1 _ (Dropped_In _ _ _ Hfar1 _ Hin))) as (Hlc & Hls & Hp). cbn [h_c h_s] in Hlc, Hls, Hp.
+        apply (not_near_far c Hok g' x sg G Hb' Hgv Hlen' Hlc Hls Hp Hn).
     + intros _. rewrite Hp1. apply D_nil.
     + intros G'. rewrite G in G'. discriminate G'.
-    + intros _ h Hin. apply (All3_clear_gstep c (c_vars c) (s_geom s1) g' (h_c h) Hvars Hs). apply (Hcl G h Hin).
+    + intros _ h Hin. destruct (Hcl G h Hin) as [H4 Hp]. split; [|exact Hp].
+      apply (All4_clear_gstep (c_vars c) (s_geom s1) g' (h_c h) (h_s h) Hvars Hs H4).
 Qed.
 
 Lemma next_base_ok c g0 e s : geom_ok c g0 ->
   match e with ERestart (Some g') => rebin_ok c g' s | _ => True end ->
   geom_ok c (next_base c g0 e).
 Proof.
-  intros Hg0 He G. destruct e as [i| |[g'|]|]; cbn [next_base]; try (apply Hg0; exact G).
+  intros Hg0 He G. destruct e as [i| |[g'|]| |p]; cbn [next_base]; try (apply Hg0; exact G).
   rewrite G. destruct (He G) as (Hb & _). exact Hb.
 Qed.
 
-Lemma run_inv_gen c : cfg_ok c -> forall hist g0 m s,
-  geom_ok c g0 -> Inv c g0 m s -> hist_ok c g0 s hist ->
-  Inv c (fold_left (next_base c) hist g0) (fold_left (apply_event Rops c) hist m) (fold_left (spec_event c) hist s) /\
-  geom_ok c (fold_left (next_base c) hist g0).
+(* the invariant does not depend on the widths, weight and frequency configured for the hills to come *)
+Lemma Inv_par c p g0 m s : Inv c g0 m s -> Inv (with_par c p) g0 m s.
+Proof. intros [f1 f2 f3 f4 f5 f6 f7 f8 f9 f10 f11]. constructor; assumption. Qed.
+
+Lemma final_cfg_cons (c : cfgR) e hist : final_cfg c (e :: hist) = final_cfg (next_cfg c e) hist.
+Proof. reflexivity. Qed.
+
+Lemma final_cfg_fixed (c : cfgR) hist :
+  c_vars (final_cfg c hist) = c_vars c /\ c_use_grids (final_cfg c hist) = c_use_grids c /\
+  c_keep (final_cfg c hist) = c_keep c /\ c_wt (final_cfg c hist) = c_wt c /\ c_eb (final_cfg c hist) = c_eb c /\
+  c_gfreq (final_cfg c hist) = c_gfreq c /\ c_geom0 (final_cfg c hist) = c_geom0 c.
 Proof.
-  intros Hok. induction hist as [|e hist IH]; intros g0 m s Hg0 HI HH; cbn [fold_left].
-  - split; assumption.
-  - cbn [hist_ok] in HH. destruct HH as [He Hr]. apply IH.
-    + apply (next_base_ok c g0 e s Hg0). destruct e as [i| |[g'|]|]; try exact I. exact He.
-    + destruct e as [i| |[g'|]|].
-      * cbn [next_base]. apply (event_inv c Hok g0 Hg0 m s (EStep i) HI He).
-      * cbn [next_base]. apply (event_inv c Hok g0 Hg0 m s ESave HI I).
-      * apply (rebin_inv c g0 g' m s Hok Hg0 HI He).
-      * cbn [next_base]. apply (event_inv c Hok g0 Hg0 m s (ERestart None) HI I).
-      * cbn [next_base]. apply (event_inv c Hok g0 Hg0 m s EReload HI I).
-    + exact Hr.
+  revert c. induction hist as [|e hist IH]; intros c; [repeat split|].
+  rewrite final_cfg_cons. destruct (IH (next_cfg c e)) as (H1 & H2 & H3 & H4 & H5 & H6 & H7).
+  rewrite H1, H2, H3, H4, H5, H6, H7. destruct e; repeat split.
+Qed.
+
+Lemma frun_app {A} (f : cfgR -> A -> eventR -> A) h1 : forall c h2 a,
+  frun f c (h1 ++ h2) a = frun f (final_cfg c h1) h2 (frun f c h1 a).
+Proof. induction h1 as [|e h1 IH]; intros c h2 a; cbn [app frun]; [reflexivity|]. rewrite IH. reflexivity. Qed.
+
+Lemma final_cfg_app (c : cfgR) h1 h2 : final_cfg c (h1 ++ h2) = final_cfg (final_cfg c h1) h2.
+Proof. unfold final_cfg. apply fold_left_app. Qed.
+
+Lemma fbase_app h1 : forall c h2 g0, fbase c (h1 ++ h2) g0 = fbase (final_cfg c h1) h2 (fbase c h1 g0).
+Proof. induction h1 as [|e h1 IH]; intros c h2 g0; cbn [app fbase]; [reflexivity|]. rewrite IH. reflexivity. Qed.
+
+Lemma run_inv_gen : forall hist c g0 m s, cfg_ok c ->
+  geom_ok c g0 -> Inv c g0 m s -> hist_ok c g0 s hist ->
+  Inv (final_cfg c hist) (fbase c hist g0) (frun (apply_event Rops) c hist m) (frun spec_event c hist s) /\
+  geom_ok (final_cfg c hist) (fbase c hist g0) /\ cfg_ok (final_cfg c hist).
+Proof.
+  induction hist as [|e hist IH]; intros c g0 m s Hok Hg0 HI HH; cbn [frun fbase].
+  - split; [exact HI|split; [exact Hg0|exact Hok]].
+  - cbn [hist_ok] in HH. destruct HH as [He Hr]. rewrite final_cfg_cons.
+    destruct e as [i| |[g'|]| |p]; cbn [next_cfg] in *.
+    + apply IH; [exact Hok|exact Hg0|apply (event_inv c Hok g0 Hg0 m s (EStep i) HI He)|exact Hr].
+    + apply IH; [exact Hok|exact Hg0|apply (event_inv c Hok g0 Hg0 m s ESave HI I)|exact Hr].
+    + apply IH; [exact Hok|apply (next_base_ok c g0 (ERestart (Some g')) s Hg0 He)|apply (rebin_inv c g0 g' m s Hok Hg0 HI He)|exact Hr].
+    + apply IH; [exact Hok|exact Hg0|apply (event_inv c Hok g0 Hg0 m s (ERestart None) HI I)|exact Hr].
+    + apply IH; [exact Hok|exact Hg0|apply (event_inv c Hok g0 Hg0 m s EReload HI I)|exact Hr].
+    + apply IH; [exact He|exact Hg0| |exact Hr].
+      apply Inv_par. apply (event_inv c Hok g0 Hg0 m s (EReconf p) HI I).
 Qed.
 
 Lemma cfg_geom0_ok c : cfg_ok c -> geom_ok c (c_geom0 c).
-Proof. intros (_ & _ & H) G. destruct (H G) as [Hb _]. exact Hb. Qed.
+Proof. intros (_ & _ & _ & H) G. destruct (H G) as [Hb _]. exact Hb. Qed.
 
 Lemma run_inv c hist : cfg_ok c -> history_ok c hist ->
-  Inv c (final_base c hist) (final_state Rops c hist) (spec_run c hist) /\
-  geom_ok c (final_base c hist).
+  Inv (final_cfg c hist) (final_base c hist) (final_state Rops c hist) (spec_run c hist) /\
+  geom_ok (final_cfg c hist) (final_base c hist) /\ cfg_ok (final_cfg c hist).
 Proof.
   intros Hok HH. unfold final_base, final_state, spec_run.
-  apply (run_inv_gen c Hok hist (c_geom0 c)); [apply cfg_geom0_ok; exact Hok| |exact HH].
+  apply (run_inv_gen hist c (c_geom0 c)); [exact Hok|apply cfg_geom0_ok; exact Hok| |exact HH].
   apply init_inv; [apply cfg_geom0_ok; exact Hok|reflexivity].
 Qed.
 
-Lemma hist_ok_app c h1 : forall g0 s h2,
+Lemma hist_ok_app h1 : forall c g0 s h2,
   hist_ok c g0 s (h1 ++ h2) <->
-  hist_ok c g0 s h1 /\ hist_ok c (fold_left (next_base c) h1 g0) (fold_left (spec_event c) h1 s) h2.
+  hist_ok c g0 s h1 /\ hist_ok (final_cfg c h1) (fbase c h1 g0) (frun spec_event c h1 s) h2.
 Proof.
-  induction h1 as [|e h1 IH]; intros g0 s h2; cbn [app hist_ok fold_left]; [tauto|].
-  rewrite IH. tauto.
+  induction h1 as [|e h1 IH]; intros c g0 s h2; cbn [app hist_ok frun fbase]; [unfold final_cfg; cbn; tauto|].
+  rewrite IH, final_cfg_cons. tauto.
 Qed.
 
 (* ================================================================== statements at the level of histories *)
 
 Lemma final_state_snoc c hist e :
-  final_state Rops c (hist ++ [e]) = apply_event Rops c (final_state Rops c hist) e.
-Proof. unfold final_state. rewrite fold_left_app. reflexivity. Qed.
+  final_state Rops c (hist ++ [e]) = apply_event Rops (final_cfg c hist) (final_state Rops c hist) e.
+Proof. unfold final_state. rewrite frun_app. reflexivity. Qed.
 
-Lemma spec_run_snoc c hist e : spec_run c (hist ++ [e]) = spec_event c (spec_run c hist) e.
-Proof. unfold spec_run. rewrite fold_left_app. reflexivity. Qed.
+Lemma spec_run_snoc c hist e : spec_run c (hist ++ [e]) = spec_event (final_cfg c hist) (spec_run c hist) e.
+Proof. unfold spec_run. rewrite frun_app. reflexivity. Qed.
 
-Lemma final_base_snoc c hist e : final_base c (hist ++ [e]) = next_base c (final_base c hist) e.
-Proof. unfold final_base. rewrite fold_left_app. reflexivity. Qed.
+Lemma final_base_snoc c hist e : final_base c (hist ++ [e]) = next_base (final_cfg c hist) (final_base c hist) e.
+Proof. unfold final_base. rewrite fbase_app. reflexivity. Qed.
+
+(* the specification of the bias does not depend on the widths, weight and frequency configured for the hills to come *)
+Lemma spec_energy_final c hist s x : spec_energy (final_cfg c hist) s x = spec_energy c s x.
+Proof.
+  destruct (final_cfg_fixed c hist) as (H1 & H2 & _). unfold spec_energy, in_grid, bin_centre. rewrite H1, H2. reflexivity.
+Qed.
+Lemma spec_force_final c hist s x k j : spec_force (final_cfg c hist) s x k j = spec_force c s x k j.
+Proof.
+  destruct (final_cfg_fixed c hist) as (H1 & H2 & _). unfold spec_force, in_grid, bin_centre. rewrite H1, H2. reflexivity.
+Qed.
 
 (* energy, and force on variable k (a list of components), returned by update() at the step with input i after
-   the history hist *)
+   the history hist (the bias runs with the configuration in force after hist) *)
 Definition out_energy (c : cfgR) (hist : list eventR) (i : inR) : R :=
-  fst (snd (step Rops c (final_state Rops c hist) i)).
+  fst (snd (step Rops (final_cfg c hist) (final_state Rops c hist) i)).
 Definition out_force (c : cfgR) (hist : list eventR) (i : inR) (k : nat) : valueR :=
-  nth k (snd (snd (step Rops c (final_state Rops c hist) i))) [].
+  nth k (snd (snd (step Rops (final_cfg c hist) (final_state Rops c hist) i))) [].
+
+Lemma final_cfg_step (c : cfgR) hist (i : inR) : final_cfg c (hist ++ [EStep i]) = final_cfg c hist.
+Proof. rewrite final_cfg_app. reflexivity. Qed.
 
 Lemma out_energy_eq c hist i :
-  out_energy c hist i = calc_energy Rops c (final_state Rops c (hist ++ [EStep i])) (i_x i).
+  out_energy c hist i = calc_energy Rops (final_cfg c hist) (final_state Rops c (hist ++ [EStep i])) (i_x i).
 Proof. unfold out_energy, step. cbn [fst snd]. rewrite final_state_snoc. reflexivity. Qed.
 
 Lemma nth_map_seq {A} (f : nat -> A) n k d : (k < n)%nat -> nth k (map f (seq 0 n)) d = f k.
@@ -652,16 +711,17 @@ Proof.
 Qed.
 
 Lemma out_force_eq c hist i k : (k < length (c_vars c))%nat ->
-  out_force c hist i k = calc_force Rops c (final_state Rops c (hist ++ [EStep i])) (i_x i) k.
+  out_force c hist i k = calc_force Rops (final_cfg c hist) (final_state Rops c (hist ++ [EStep i])) (i_x i) k.
 Proof.
   intros H. unfold out_force, step. cbn [fst snd]. rewrite final_state_snoc.
-  unfold calc_forces. apply nth_map_seq. exact H.
+  unfold calc_forces. apply nth_map_seq. destruct (final_cfg_fixed c hist) as (H1 & _). rewrite H1. exact H.
 Qed.
 
-Lemma last_step_adm c hist i : history_ok c (hist ++ [EStep i]) -> adm c (final_base c (hist ++ [EStep i])) (i_x i).
+Lemma last_step_adm c hist i : history_ok c (hist ++ [EStep i]) ->
+  adm (final_cfg c (hist ++ [EStep i])) (final_base c (hist ++ [EStep i])) (i_x i).
 Proof.
   unfold history_ok. intros H. apply hist_ok_app in H. destruct H as [_ H]. cbn [hist_ok] in H. destruct H as [H _].
-  rewrite final_base_snoc. cbn [next_base]. exact H.
+  rewrite final_base_snoc, final_cfg_step. cbn [next_base]. exact H.
 Qed.
 
 Lemma schedule_holds c hist : cfg_ok c -> history_ok c hist ->
@@ -670,22 +730,26 @@ Lemma schedule_holds c hist : cfg_ok c -> history_ok c hist ->
   Dropped (fun _ => True) (s_tab (spec_run c hist)) (st_old (final_state Rops c hist)) /\
   st_geom (final_state Rops c hist) = s_geom (spec_run c hist).
 Proof.
-  intros H1 H2. destruct (run_inv c hist H1 H2) as [[Hnew Hold Hsub Hgeom _ _ _ _ _ _ _] _]. auto.
+  intros H1 H2. destruct (run_inv c hist H1 H2) as [[Hnew Hold Hsub Hgeom _ _ _ _ _ _ _] _].
+  destruct (final_cfg_fixed c hist) as (_ & _ & Hk & _). rewrite Hk in Hold. auto.
 Qed.
 
 Lemma energy_holds c hist i : cfg_ok c -> history_ok c (hist ++ [EStep i]) ->
   out_energy c hist i = spec_energy c (spec_run c (hist ++ [EStep i])) (i_x i).
 Proof.
-  intros H1 H2. rewrite out_energy_eq. destruct (run_inv c _ H1 H2) as [HI Hb].
-  apply (energy_spec c H1 _ Hb _ _ _ HI). apply last_step_adm. exact H2.
+  intros H1 H2. rewrite out_energy_eq. destruct (run_inv c _ H1 H2) as (HI & Hb & Hok').
+  pose proof (last_step_adm c hist i H2) as Ha. rewrite final_cfg_step in *.
+  rewrite (energy_spec _ Hok' _ Hb _ _ _ HI Ha). apply spec_energy_final.
 Qed.
 
 Lemma force_holds c hist i k j : cfg_ok c -> history_ok c (hist ++ [EStep i]) ->
   (k < length (c_vars c))%nat ->
   nth j (out_force c hist i k) 0 = spec_force c (spec_run c (hist ++ [EStep i])) (i_x i) k j.
 Proof.
-  intros H1 H2 Hk. rewrite out_force_eq by exact Hk. destruct (run_inv c _ H1 H2) as [HI Hb].
-  apply (force_spec c H1 _ Hb _ _ _ _ _ HI); [|exact Hk]. apply last_step_adm. exact H2.
+  intros H1 H2 Hk. rewrite out_force_eq by exact Hk. destruct (run_inv c _ H1 H2) as (HI & Hb & Hok').
+  pose proof (last_step_adm c hist i H2) as Ha. rewrite final_cfg_step in *.
+  rewrite (force_spec _ Hok' _ Hb _ _ _ _ _ HI Ha); [apply spec_force_final|].
+  destruct (final_cfg_fixed c hist) as (Hv & _). rewrite Hv. exact Hk.
 Qed.
 
 Lemma grid_is_projected_sum c hist : cfg_ok c -> history_ok c hist ->
@@ -696,6 +760,7 @@ Lemma grid_is_projected_sum c hist : cfg_ok c -> history_ok c hist ->
       - Fsum (c_vars c) (s_tab (spec_run c hist)) (centre Rops (c_vars c) (s_geom (spec_run c hist)) ix) k 0.
 Proof.
   intros H1 H2 ix Hix. destruct (run_inv c hist H1 H2) as [[_ _ _ _ _ He Hg _ _ _ _] _].
+  destruct (final_cfg_fixed c hist) as (Hv & _). rewrite Hv in He, Hg.
   split; [apply He; exact Hix|intros k Hk; apply Hg; assumption].
 Qed.
 
@@ -704,25 +769,29 @@ Qed.
 Lemma geometry_grows c hist : cfg_ok c -> history_ok c hist -> c_use_grids c = true ->
   All3 (fun v b b' => gstep v b b') (c_vars c) (final_base c hist) (s_geom (spec_run c hist)).
 Proof.
-  intros H1 H2 G. destruct (run_inv c hist H1 H2) as [[_ _ _ _ Hgrel _ _ _ _ _ _] _]. apply Hgrel. exact G.
+  intros H1 H2 G. destruct (run_inv c hist H1 H2) as [[_ _ _ _ Hgrel _ _ _ _ _ _] _].
+  destruct (final_cfg_fixed c hist) as (Hv & Hu & _). rewrite Hv, Hu in Hgrel. apply Hgrel. exact G.
 Qed.
 
 (* ---- the schedule itself ---- *)
 Lemma s_all_step c s i :
   s_all (spec_step c s i) =
   s_all s ++ (if eligible c i
-              then [mkHill (i_it i) (spec_height c (spec_expand c s (i_x i)) i) (i_x i)] else []).
+              then [mkHill (i_it i) (spec_height c (spec_expand c s (i_x i)) i) (i_x i) (c_sigmas c)] else []).
 Proof.
   unfold spec_step, spec_proj, spec_tabulate, spec_dep, s_all.
   destruct (eligible c i); destruct (i_it i mod c_gfreq c =? 0)%Z; destruct (c_use_grids c);
     cbn [s_tab s_pend spec_expand]; rewrite ?app_nil_r, ?app_assoc; reflexivity.
 Qed.
 
+(* every eligible step adds one hill, centred at the values of that step, with the height and the widths of the
+   configuration in force *)
 Lemma deposited_snoc c hist i :
   s_all (spec_run c (hist ++ [EStep i])) =
   s_all (spec_run c hist) ++
-  (if eligible c i
-   then [mkHill (i_it i) (spec_height c (spec_expand c (spec_run c hist) (i_x i)) i) (i_x i)] else []).
+  (let c' := final_cfg c hist in
+   if eligible c' i
+   then [mkHill (i_it i) (spec_height c' (spec_expand c' (spec_run c hist) (i_x i)) i) (i_x i) (c_sigmas c')] else []).
 Proof. rewrite spec_run_snoc. apply s_all_step. Qed.
 
 Lemma deposited_save c hist : s_all (spec_run c (hist ++ [ESave])) = s_all (spec_run c hist).
@@ -737,53 +806,63 @@ Qed.
 Lemma deposited_restart c hist r : s_all (spec_run c (hist ++ [ERestart r])) = s_all (spec_run c hist).
 Proof. rewrite spec_run_snoc. apply s_all_restart. Qed.
 
-Fixpoint steps_of (hist : list eventR) : list inR :=
+Lemma deposited_reconf c hist p : s_all (spec_run c (hist ++ [EReconf p])) = s_all (spec_run c hist).
+Proof. rewrite spec_run_snoc. apply (s_all_restart _ _ None). Qed.
+
+(* without well-tempering and ebMeta: one hill of the height and widths in force per eligible step *)
+Fixpoint plain_hills (c : cfgR) (hist : list eventR) : list hillR :=
   match hist with
   | [] => []
-  | EStep i :: r => i :: steps_of r
-  | ESave :: r => steps_of r
-  | ERestart _ :: r => steps_of r
-  | EReload :: r => steps_of r
+  | e :: r =>
+      (match e with
+       | EStep i => if eligible c i then [mkHill (i_it i) (c_weight c) (i_x i) (c_sigmas c)] else []
+       | _ => []
+       end) ++ plain_hills (next_cfg c e) r
   end.
 
-(* without well-tempering: the deposited hills are one hill of height hillWeight per eligible step *)
-Lemma deposited_plain c hist : c_wt c = false -> c_eb c = false ->
-  s_all (spec_run c hist) = map (fun i => mkHill (i_it i) (c_weight c) (i_x i)) (filter (eligible c) (steps_of hist)).
+Lemma deposited_plain c hist : c_wt c = false -> c_eb c = false -> s_all (spec_run c hist) = plain_hills c hist.
 Proof.
   intros W B. unfold spec_run.
-  assert (Hgen : forall s, s_all (fold_left (spec_event c) hist s) =
-            s_all s ++ map (fun i => mkHill (i_it i) (c_weight c) (i_x i)) (filter (eligible c) (steps_of hist))).
-  { induction hist as [|e hist IH]; intros s; cbn [fold_left].
-    - cbn. rewrite app_nil_r. reflexivity.
-    - destruct e as [i| |r|]; cbn [spec_event steps_of filter].
-      + rewrite IH, s_all_step. unfold spec_height, eb_factor. rewrite W, B.
-        replace (c_weight c * (1 * 1)) with (c_weight c) by ring.
-        destruct (eligible c i); cbn [map]; rewrite <- app_assoc; reflexivity.
-      + rewrite IH, s_all_save. reflexivity.
-      + rewrite IH, s_all_restart. reflexivity.
-      + rewrite IH, s_all_save. reflexivity. }
-  rewrite Hgen. reflexivity.
+  assert (Hgen : forall hist c s, c_wt c = false -> c_eb c = false ->
+            s_all (frun spec_event c hist s) = s_all s ++ plain_hills c hist).
+  { clear. induction hist as [|e hist IH]; intros c s W B; cbn [frun plain_hills].
+    - rewrite app_nil_r. reflexivity.
+    - assert (W' : c_wt (next_cfg c e) = false) by (destruct e; exact W).
+      assert (B' : c_eb (next_cfg c e) = false) by (destruct e; exact B).
+      rewrite (IH _ _ W' B'). destruct e as [i| |r| |p]; cbn [spec_event].
+      + rewrite s_all_step. unfold spec_height, eb_factor. rewrite W, B.
+        replace (c_weight c * (1 * 1)) with (c_weight c) by ring. rewrite <- app_assoc. reflexivity.
+      + rewrite s_all_save. reflexivity.
+      + rewrite s_all_restart. reflexivity.
+      + rewrite s_all_save. reflexivity.
+      + rewrite (s_all_restart _ _ None). reflexivity. }
+  rewrite (Hgen hist c _ W B). reflexivity.
 Qed.
 
 (* hills are tabulated at the steps that are multiples of gridsUpdateFrequency, and when the state is written *)
 Lemma tabulated_snoc c hist i : c_use_grids c = true ->
   s_pend (spec_run c (hist ++ [EStep i])) = (if (i_it i mod c_gfreq c =? 0)%Z then [] else
      s_pend (spec_run c hist) ++
-     (if eligible c i
-      then [mkHill (i_it i) (spec_height c (spec_expand c (spec_run c hist) (i_x i)) i) (i_x i)] else [])).
+     (let c' := final_cfg c hist in
+      if eligible c' i
+      then [mkHill (i_it i) (spec_height c' (spec_expand c' (spec_run c hist) (i_x i)) i) (i_x i) (c_sigmas c')] else [])).
 Proof.
-  intros G. rewrite spec_run_snoc. cbn [spec_event]. unfold spec_step, spec_proj, spec_tabulate, spec_dep. rewrite G.
-  destruct (i_it i mod c_gfreq c =? 0)%Z; [reflexivity|].
-  destruct (eligible c i); cbn [s_pend spec_expand]; rewrite ?app_nil_r; reflexivity.
+  intros G. rewrite spec_run_snoc. cbn [spec_event]. unfold spec_step, spec_proj, spec_tabulate, spec_dep.
+  destruct (final_cfg_fixed c hist) as (_ & Hu & _ & _ & _ & Hgf & _). rewrite Hu, Hgf, G.
+  destruct (i_it i mod c_gfreq c =? 0)%Z; [reflexivity|]. cbv zeta.
+  destruct (eligible (final_cfg c hist) i); cbn [s_pend spec_expand]; rewrite ?app_nil_r; reflexivity.
 Qed.
 
 Lemma tabulated_save c hist : c_use_grids c = true -> s_pend (spec_run c (hist ++ [ESave])) = [].
-Proof. intros G. rewrite spec_run_snoc. cbn [spec_event]. unfold spec_tabulate. rewrite G. reflexivity. Qed.
+Proof.
+  intros G. rewrite spec_run_snoc. cbn [spec_event]. unfold spec_tabulate.
+  destruct (final_cfg_fixed c hist) as (_ & Hu & _). rewrite Hu, G. reflexivity.
+Qed.
 
 Lemma tabulated_restart c hist r : c_use_grids c = true -> s_pend (spec_run c (hist ++ [ERestart r])) = [].
 Proof.
-  intros G. rewrite spec_run_snoc. cbn [spec_event]. unfold spec_restart, spec_tabulate. rewrite G.
-  destruct r; reflexivity.
+  intros G. rewrite spec_run_snoc. cbn [spec_event]. unfold spec_restart, spec_tabulate.
+  destruct (final_cfg_fixed c hist) as (_ & Hu & _). rewrite Hu, G. destruct r; reflexivity.
 Qed.
 
 (* rebinGrids: the restart gives the grids the boundaries of the new configuration *)
@@ -791,13 +870,13 @@ Lemma rebin_geometry c hist g' : c_use_grids c = true ->
   s_geom (spec_run c (hist ++ [ERestart (Some g')])) = g' /\
   s_tab (spec_run c (hist ++ [ERestart (Some g')])) = s_all (spec_run c hist).
 Proof.
-  intros G. rewrite spec_run_snoc. cbn [spec_event]. unfold spec_restart, spec_tabulate, s_all. rewrite G.
-  split; reflexivity.
+  intros G. rewrite spec_run_snoc. cbn [spec_event]. unfold spec_restart, spec_tabulate, s_all.
+  destruct (final_cfg_fixed c hist) as (_ & Hu & _). rewrite Hu, G. split; reflexivity.
 Qed.
 
 (* keepHills does not occur in the specification *)
 Definition set_keep (c : cfgR) (b : bool) : cfgR :=
-  mkCfg (c_vars c) (c_geom0 c) (c_weight c) (c_hill_width c) (c_freq c) (c_gfreq c) (c_use_grids c) b
+  mkCfg (c_vars c) (c_geom0 c) (c_sigmas c) (c_weight c) (c_hill_width c) (c_freq c) (c_gfreq c) (c_use_grids c) b
         (c_wt c) (c_bias_temp c) (c_kb c) (c_step_zero c) (c_eb c) (c_eb_equil c) (c_eb_target c).
 
 Lemma expand_geom_keep c b us : forall g x,
@@ -815,15 +894,18 @@ Qed.
 
 Lemma spec_event_keep c b s e : spec_event (set_keep c b) s e = spec_event c s e.
 Proof.
-  destruct e as [i| |r|]; cbn [spec_event]; [|reflexivity|reflexivity|reflexivity].
+  destruct e as [i| |r| |p]; cbn [spec_event]; try reflexivity.
   unfold spec_step, spec_expand. rewrite next_geom_keep. reflexivity.
 Qed.
+
+Lemma next_cfg_keep (c : cfgR) b e : next_cfg (set_keep c b) e = set_keep (next_cfg c e) b.
+Proof. destruct e; reflexivity. Qed.
 
 Lemma spec_run_keep c b hist : spec_run (set_keep c b) hist = spec_run c hist.
 Proof.
   unfold spec_run. change (c_geom0 (set_keep c b)) with (c_geom0 c). generalize (mkS [] [] (c_geom0 c)).
-  induction hist as [|e hist IH]; intros s; cbn [fold_left]; [reflexivity|].
-  rewrite spec_event_keep. apply IH.
+  revert c. induction hist as [|e hist IH]; intros c s; cbn [frun]; [reflexivity|].
+  rewrite spec_event_keep, next_cfg_keep. apply IH.
 Qed.
 
 Lemma keep_hills_irrelevant c b hist i : cfg_ok c ->
@@ -840,33 +922,35 @@ Proof.
     reflexivity.
 Qed.
 
-(* histories without a rebinning restart: a list of admissible steps, saves and plain restarts *)
+(* histories without a rebinning restart or a reconfiguration: a list of admissible steps, saves, plain restarts and
+   reloads *)
 Definition plain_event (c : cfgR) (e : eventR) : Prop :=
-  match e with EStep i => adm c (c_geom0 c) (i_x i) | ERestart (Some _) => False | _ => True end.
+  match e with EStep i => adm c (c_geom0 c) (i_x i) | ERestart (Some _) => False | EReconf _ => False | _ => True end.
 
 Lemma plain_history_ok c hist : Forall (plain_event c) hist -> history_ok c hist.
 Proof.
   unfold history_ok. generalize (mkS [] [] (c_geom0 c)).
   induction hist as [|e hist IH]; intros s HF; cbn [hist_ok]; [exact I|].
   inversion HF as [|e' l' He Hl]; subst.
-  destruct e as [i| |[g'|]|]; cbn [plain_event next_base] in *; try contradiction; (split; [assumption|apply IH; exact Hl]).
+  destruct e as [i| |[g'|]| |p]; cbn [plain_event next_base next_cfg] in *; try contradiction; (split; [assumption|apply IH; exact Hl]).
 Qed.
 
 (* ================================================================== writeHillsTrajectory *)
 
 (* the hills written to the hills trajectory since the instance was created: one record per deposited hill, in
-   order, with the step, height and centre of the deposition *)
+   order, with the step, height, centre and widths of the deposition *)
 Fixpoint traj_run (c : cfgR) (s : sstate) (tr : list hillR) (hist : list eventR) : list hillR :=
   match hist with
   | [] => tr
   | e :: r =>
-      traj_run c (spec_event c s e)
+      traj_run (next_cfg c e) (spec_event c s e)
         (match e with
          | EStep i => tr ++ (if eligible c i
-                             then [mkHill (i_it i) (spec_height c (spec_expand c s (i_x i)) i) (i_x i)] else [])
+                             then [mkHill (i_it i) (spec_height c (spec_expand c s (i_x i)) i) (i_x i) (c_sigmas c)] else [])
          | ESave => tr
          | ERestart _ => []
          | EReload => tr
+         | EReconf _ => []
          end) r
   end.
 Definition spec_traj (c : cfgR) (hist : list eventR) : list hillR := traj_run c (mkS [] [] (c_geom0 c)) [] hist.
@@ -876,13 +960,14 @@ Lemma traj_event c g0 m s e : cfg_ok c -> geom_ok c g0 -> Inv c g0 m s ->
   st_traj (apply_event Rops c m e) =
   match e with
   | EStep i => st_traj m ++ (if eligible c i
-                             then [mkHill (i_it i) (spec_height c (spec_expand c s (i_x i)) i) (i_x i)] else [])
+                             then [mkHill (i_it i) (spec_height c (spec_expand c s (i_x i)) i) (i_x i) (c_sigmas c)] else [])
   | ESave => st_traj m
   | ERestart _ => []
   | EReload => st_traj m
+  | EReconf _ => []
   end.
 Proof.
-  intros Hok Hg0 HI Ha. destruct e as [i| |r|]; cbn [apply_event].
+  intros Hok Hg0 HI Ha. destruct e as [i| |r| |p]; cbn [apply_event].
   - unfold step_state.
     pose proof (expand_inv c Hok g0 Hg0 m s (i_x i) HI Ha) as H1.
     set (m1 := update_grid_params Rops c m (i_x i)) in *.
@@ -891,7 +976,7 @@ Proof.
       destruct (geom_changed (st_geom m) (expand_geom Rops c (c_vars c) (st_geom m) (i_x i))); reflexivity. }
     assert (Ht2 : st_traj (update_bias Rops c m1 i) =
                   st_traj m ++ (if eligible c i
-                                then [mkHill (i_it i) (spec_height c (spec_expand c s (i_x i)) i) (i_x i)] else [])).
+                                then [mkHill (i_it i) (spec_height c (spec_expand c s (i_x i)) i) (i_x i) (c_sigmas c)] else [])).
     { unfold update_bias. rewrite (eligible_deposit c i). destruct (eligible c i).
       - cbn [st_traj]. rewrite (deposit_weight c Hok g0 Hg0 m1 _ i H1 Ha), Ht1. reflexivity.
       - rewrite app_nil_r. exact Ht1. }
@@ -901,31 +986,26 @@ Proof.
   - unfold save_state. destruct (c_use_grids c); reflexivity.
   - unfold restart_state, read_state, rebin_state. destruct r as [g'|]; destruct (c_use_grids c); reflexivity.
   - reflexivity.
+  - unfold restart_state, read_state. destruct (c_use_grids c); reflexivity.
 Qed.
 
-Lemma traj_gen c : cfg_ok c -> forall hist g0 m s tr, geom_ok c g0 -> Inv c g0 m s -> hist_ok c g0 s hist ->
-  st_traj m = tr -> st_traj (fold_left (apply_event Rops c) hist m) = traj_run c s tr hist.
+Lemma traj_gen : forall hist c g0 m s tr, cfg_ok c -> geom_ok c g0 -> Inv c g0 m s -> hist_ok c g0 s hist ->
+  st_traj m = tr -> st_traj (frun (apply_event Rops) c hist m) = traj_run c s tr hist.
 Proof.
-  intros Hok. induction hist as [|e hist IH]; intros g0 m s tr Hg0 HI HH Ht; cbn [fold_left traj_run]; [exact Ht|].
+  induction hist as [|e hist IH]; intros c g0 m s tr Hok Hg0 HI HH Ht; cbn [frun traj_run]; [exact Ht|].
   cbn [hist_ok] in HH. destruct HH as [He Hr].
-  assert (Hnb : geom_ok c (next_base c g0 e)).
-  { apply (next_base_ok c g0 e s Hg0). destruct e as [i| |[g'|]|]; try exact I. exact He. }
-  assert (HI' : Inv c (next_base c g0 e) (apply_event Rops c m e) (spec_event c s e)).
-  { destruct e as [i| |[g'|]|].
-    - cbn [next_base]. apply (event_inv c Hok g0 Hg0 m s (EStep i) HI He).
-    - cbn [next_base]. apply (event_inv c Hok g0 Hg0 m s ESave HI I).
-    - apply (rebin_inv c g0 g' m s Hok Hg0 HI He).
-    - cbn [next_base]. apply (event_inv c Hok g0 Hg0 m s (ERestart None) HI I).
-    - cbn [next_base]. apply (event_inv c Hok g0 Hg0 m s EReload HI I). }
-  apply (IH _ _ _ _ Hnb HI' Hr).
-  rewrite (traj_event c g0 m s e Hok Hg0 HI); [|destruct e as [i| |r|]; try exact I; exact He].
-  destruct e as [i| |r|]; rewrite ?Ht; reflexivity.
+  pose proof (run_inv_gen [e] c g0 m s Hok Hg0 HI) as Hstep. cbn [hist_ok frun fbase] in Hstep.
+  destruct (Hstep (conj He I)) as (HI' & Hg' & Hok'). rewrite final_cfg_cons in HI', Hg', Hok'.
+  change (final_cfg (next_cfg c e) []) with (next_cfg c e) in HI', Hg', Hok'.
+  apply (IH _ _ _ _ _ Hok' Hg' HI' Hr).
+  rewrite (traj_event c g0 m s e Hok Hg0 HI); [|destruct e as [i| |r| |p]; try exact I; exact He].
+  destruct e as [i| |r| |p]; rewrite ?Ht; reflexivity.
 Qed.
 
 Lemma trajectory_holds c hist : cfg_ok c -> history_ok c hist ->
   st_traj (final_state Rops c hist) = spec_traj c hist.
 Proof.
   intros Hok HH. unfold final_state, spec_traj.
-  apply (traj_gen c Hok hist (c_geom0 c)); [apply cfg_geom0_ok; exact Hok| |exact HH|reflexivity].
+  apply (traj_gen hist c (c_geom0 c)); [exact Hok|apply cfg_geom0_ok; exact Hok| |exact HH|reflexivity].
   apply init_inv; [apply cfg_geom0_ok; exact Hok|reflexivity].
 Qed.
